@@ -93,6 +93,17 @@ CLAIMED.update({
     ),
 })
 
+CLAIMED.update({
+    "C07": (
+        "abstract interpretation of the ParseState stack discipline on FoIR (PAIR), closed forms of the reset/driver functions, who-may-write inventories for global and per-scope state, construction/registration pairing for type-instance keys",
+        "Bounds, for every history of definitions and files at once, what can survive between definitions: root scope/offside/type-def mode are restored at every top-level statement (all ~130 state-threading functions, callbacks discharged at binding sites); "
+        "each top-level let is parsed from a reset temp/inference context; one state is folded over the files; output naming closed form and single write path; written globals and per-scope tables have frozen writer sets (declaration registration only); "
+        "type-instance keys are registered where they are built.",
+        "Invariance of the emitted text itself is not decided (collisions in the info dictionaries, inference-state leakage through keyed entries). Rules (f) and (g) were added after two seeded variants showed state paths the first design did not cover.",
+        "DESIGN.md §3 C07",
+    ),
+})
+
 NOT_APPLICABLE = {
 }
 
